@@ -346,6 +346,16 @@ theorem dec_complete_stream (bs tail : Bytes) (v : Val) (h : Denotes bs v) (hp :
     (fuel : Nat) (hf : Brine.need v ≤ fuel) : Brine.dec fuel (bs ++ tail) = .ok (v, tail) :=
   dec_denotes h hp fuel tail hf
 
+/-- **one packet = one message**: whatever follows the (single) value in a packet's payload — a second encoded
+message, garbage — is never read: the payload means its first value and nothing else (`brine.load` stops after
+one value; `_dispatch` loads once) -/
+theorem one_message_per_packet (bs rest : Bytes) (v : Val) (h : Denotes bs v) (hp : Parsable v = true) :
+    Brine.load (bs ++ rest) = .ok v := by
+  have hn := (need_le_denotes h).1
+  have := dec_denotes h hp (2 * (bs ++ rest).length + 2) rest (by simp; omega)
+  unfold Brine.load
+  rw [this]
+
 /-- **`dump` emits a shortest form**: no byte string denoting `v` is shorter than `dump v` -/
 theorem enc_shortest (bs : Bytes) (v : Val) (h : Denotes bs v) (hr : Renderable v = true)
     (e : Bytes) (he : Brine.dump v = .ok e) : e.length ≤ bs.length := by
